@@ -7,15 +7,16 @@ LN = ("Trusted: Coq kernel and vm_compute; the hand-written model (tied to /repo
 PROPS = {
     "C19": dict(
         imports="Blob.Bytes Blob.BytesCorr", check="C19_check", ctype="C19_case", show="brun binit (fst c)",
-        n=dict(quick=1500, thorough=40000), chunk=250,
+        n=dict(quick=1500, thorough=40000), chunk=250, wasm_streams=["C19wasm"], wasm_n=dict(quick=1200, thorough=30000),
         rule="random histories (<=12 ops) over blob.Bytes values of length 0..64 with arguments -2..len+2, "
-             "aliasing views, Set from own view; distinct = distinct (ops, observations) term; every case is non-trivial (>=3 ops)",
+             "aliasing views, Set from own view; distinct = distinct (ops, observations) term; every case is non-trivial (>=3 ops); "
+             "the same generator on idbblob blobs (three ways of making them: JS array only, bytes already read, filled through Set) under js/wasm, half of the histories in-range only, half of them reading contents only where the history says so",
         level_text="Theorems (Coq kernel) over an executable model of blob.Bytes as Go slices with shared mutexes: every out-of-range argument is answered by an error and leaves every blob unchanged, "
                    "in-range operations agree with the byte-sequence laws (views alias, slices/Bytes() copy, Grow appends zeros, Truncate keeps a prefix), no operation panics or self-deadlocks (Set from an own view terminates). "
                    "Per run: the model is evaluated in-kernel on the same random histories the real blob.Bytes executed and every result and every blob's bytes after every step are compared.",
-        level_note="Trusted: Coq kernel + vm_compute; the hand-written model (tied by the correspondence check only); Go harness. Not modelled: spare slice capacity after append reallocation (cases cut there), the js/wasm typed-array blob.",
+        level_note="Trusted: Coq kernel + vm_compute; the hand-written model (tied by the correspondence check only); Go harness. Not modelled: spare slice capacity after append reallocation (cases cut there); the js/wasm typed-array blob is exercised against the []byte reference (node) but not modelled in Coq.",
         assumptions=["Go slice capacity after an append-reallocation is not modelled: histories whose result depends on it are cut at that step (RUnknown)",
-                     "typed-array blob (indexeddb/idbblob, js/wasm) is not covered by this check's theorems"],
+                     "typed-array blob (indexeddb/idbblob, js/wasm): differential stream under node only, not covered by this check's theorems; aliasing between a blob and its views after a Grow/Truncate is not compared there"],
     ),
     "C01": dict(
         imports="Base.Path KV.Types KV.FS KV.Handle KV.Run KV.Corr", check="C01_check", ctype="kv_case",
@@ -108,7 +109,7 @@ PROPS = {
         level_text=LT, level_note=LN, assumptions=[],
     ),
     "C10": dict(
-        imports="Cache.Cache", check="C10_check", ctype="C10_case",
+        imports="Cache.Cache Cache.CacheDir", check="C10_check", ctype="C10_case",
         show="let '(src, retained, can_remove, ops, _, _) := c in cruns src (fun n => mem_str n retained) 512 can_remove cinit ops", n=dict(quick=400, thorough=6000), chunk=100,
         rule="random source trees (files of 0,1,511,512,513,1024,2048,5000 bytes, directories to depth 3), RetainData always/never/by size/by name, cache store mem.FS or an FS exposing only OpenFile+Mkdir; "
              "random access sequences (Open, Stat, Read of 0..6000 bytes, Seek, paged ReadDir, handle Stat, Close) answered by the cache and by the source directly; source reads counted; distinct = distinct case text",
@@ -187,8 +188,8 @@ LEVELS = {
     "C09": ("Proved for every separator/volume convention: every chain of Sub calls yields an empty or valid root; the OS path is volume + separator + (root joined with name); it stays inside the root; invalid names and names containing a non-'/' separator are refused; FromOSPath inverts ToOSPath, returns only valid FS paths, refuses other volumes, paths outside the root and look-alike prefixes. "
             "Checked every run: 5k ToOSPath/FromOSPath/Sub cases model = implementation through the build-tagged shims for Unix and Windows conventions.",
             "filepath.VolumeName is an input of the model. Error-path rewriting of os/fs.go is exercised on the real OS only."),
-    "C10": ("Proved over the cache model: the cache store holds only complete copies, Open serves the source's bytes, a successful open settles the entry, settled entries are never re-read and stay settled. "
-            "Checked every run: access sequences cache vs source (bytes, stat, listings, re-read counts); model = implementation.",
+    "C10": ("Proved over the cache model: the cache store holds only complete copies, Open serves the source's bytes, a successful open settles the entry, settled entries are never re-read and stay settled.  Proved over the model of the directory handle (cache/dir.go): while the source lists the directory the handle is the same pager as the key-value handle (C16), a source that cannot list makes the call fail and leaves the handle where it was, and over any call sequence with failures at any calls the delivered pages are exactly the listing up to the handle's position. "
+            "Checked every run: access sequences cache vs source (bytes, stat, listings, re-read counts); call sequences on directory handles with an intermittently failing source; model = implementation.",
             "Real parallelism of the path lock is exercised by C11's scheduler, not proved."),
     "C11": ("Proved over the fill state machine: a partial copy is never served, an interrupted fill reports an error, a failed fill leaves nothing servable -- over every sequence of faults, a source that cannot be opened during a later call included.  Proved over the interleaving model of concurrent openers of one name (any number of openers, every schedule, a failure possible at every step of every fill): at most one copy is in progress, every open that succeeds is complete, no partial copy is ever left unmarked, a settled copy stays, some opener can always move. "
             "Checked every run: failures injected at every source/store call, the same followed by a re-open with the source down (model = implementation); 2..4 concurrent first opens with the copy paused at chunk boundaries and a failing fill while a second opener waits (Remove slow / Remove failing): simultaneous copies counted, and the store calls the real cache made are replayed through the interleaving model (model accepts = implementation follows the protocol).",
@@ -215,10 +216,10 @@ LEVELS = {
             "Checked every run: 3000 transaction scripts model = implementation (mem store through the build-tagged constructor, and the serial fallback); a second transaction (read-only, read-write) started while one is live must wait and then see all its Sets.",
             ""),
     "C19": ("Proved: blob.Bytes operations never panic or self-deadlock; reachable blobs are well-formed; out-of-range arguments give an error and change nothing, in-range are accepted; Len/Bytes/View/Slice/Set/Grow/Truncate are the list operations; views write through. "
-            "Checked every run: 1500 operation sequences over view trees model = implementation.",
-            "idbblob (js/wasm) is not built or exercised in this sandbox."),
+            "Checked every run: 1500 operation sequences over view trees model = implementation; 1200 sequences on the typed-array blob (indexeddb/idbblob) compiled for GOOS=js GOARCH=wasm and run under node against the []byte reference (in-range: lengths and bytes; out-of-range: no panic, nothing modified).",
+            "The typed-array blob is covered by the differential stream only (no theorem about it; aliasing after a resize is not compared). One known finding there (Go-side copies of aliases go stale)."),
     "C20": ("Proved over the model of fstest's tree comparison: with the default mask mode bits are invisible and extra entries are accepted (the known findings as theorems); a kept mode bit is checked; missing entries, wrong sizes and wrong kinds are rejected; the expected tree is accepted. "
-            "Checked every run: the real suite in a child process against mem, os and 70 single-deviation wrappers; assertion layer model = implementation.",
+            "Checked every run: the real suite in a child process against mem, os and a catalogue of single-deviation wrappers (all 79 single-behaviour ones, a sample of the sentinel-pair matrix in the quick tier); assertion layer model = implementation.",
             "Partial: three classes of deviants are accepted by the suite (known findings)."),
 }
 for _pid, (_t, _n) in LEVELS.items():
